@@ -130,6 +130,10 @@ type _LexerStateMachine struct {
 	// consumed is true when at least one rune was consumed since the last
 	// accept, discard or try-again.
 	consumed bool
+
+	// accum is true while text matched by fragments without an action is
+	// accumulated, waiting for the rule that emits or discards it.
+	accum bool
 }
 
 func (l *_LexerStateMachine) PushRune(r rune) int {
@@ -212,19 +216,24 @@ func (l *_LexerStateMachine) PushRune(r rune) int {
 			l.token = int(mode[i+1])
 			l.state = 0
 			l.consumed = false
+			l.accum = false
 			return _lexerAccept
 		case 4: // Discard
 			l.state = 0
 			l.consumed = false
+			l.accum = false
 			return _lexerDiscard
 		case 5: // Accum
 			l.state = 0
 			l.consumed = false
+			l.accum = true
 			return _lexerTryAgain
 		}
 	}
 
-	if l.state == 0 && r == -1 {
+	// The input ending while accumulated text is still pending is an error:
+	// that text would otherwise vanish without a token or a diagnostic.
+	if l.state == 0 && r == -1 && !l.accum {
 		return _lexerEOF
 	}
 
@@ -235,6 +244,7 @@ func (l *_LexerStateMachine) Reset() {
 	l.mode = nil
 	l.state = 0
 	l.consumed = false
+	l.accum = false
 }
 
 func (l *_LexerStateMachine) Token() int {
